@@ -18,6 +18,8 @@
 (*   CleanTombstones            DB.CleanTombstones                           *)
 (*   Mmap                       DB.ForceHeadMMap                             *)
 (*   Reopen                     DB.Close ; tsdb.Open on the same directory   *)
+(*   CompactStale               DB.CompactStaleHead                          *)
+(*   Import(lo, hi)             a backfilled block placed in the data dir    *)
 (*                                                                         *)
 (* Time is a small integer domain; the harness maps t |-> Unit*(t + R*k),    *)
 (* so block boundaries (multiples of R) and all window arithmetic are       *)
@@ -69,6 +71,8 @@ VARIABLES
   wino,     \* [Series -> Seq(Sample)] what a WAL replay would append in order: the running-maximum
             \*   subsequence of every sample logged for the series (log() writes all samples accepted at
             \*   Append, also those later stored out-of-order or dropped by the commit-time re-check)
+  wgone,    \* timestamps of logged samples whose series was later evicted with a full-range tombstone record: a WAL
+            \*   replay appends and then removes them, but they still widen the head's minTime/maxTime
   hInit, hMin, hMax, minValid,   \* head initialised?, minTime, maxTime, minValidTime
   blk,      \* [Series -> SUBSET Sample] samples persisted in blocks (tombstoned ones removed)
   blkMax,   \* max MaxTime over blocks that are not from out-of-order compaction (NegInf if none)
@@ -79,9 +83,9 @@ VARIABLES
   kindv,    \* "any" or the action kind drawn for the next step (simulation balancing only)
   nops, hist
 
-hvars == <<ino, ooh, oom, oghost, hdel, htomb, wino, hInit, hMin, hMax, minValid>>
-vars  == <<ino, ooh, oom, oghost, hdel, htomb, wino, hInit, hMin, hMax, minValid, blk, blkMax, oooSeen, app, stored, kfset, kindv, nops, hist>>
-View  == <<ino, ooh, oom, oghost, hdel, htomb, wino, hInit, hMin, hMax, minValid, blk, blkMax, oooSeen, app, stored, kfset, kindv>>
+hvars == <<ino, ooh, oom, oghost, hdel, htomb, wino, wgone, hInit, hMin, hMax, minValid>>
+vars  == <<ino, ooh, oom, oghost, hdel, htomb, wino, wgone, hInit, hMin, hMax, minValid, blk, blkMax, oooSeen, app, stored, kfset, kindv, nops, hist>>
+View  == <<ino, ooh, oom, oghost, hdel, htomb, wino, wgone, hInit, hMin, hMax, minValid, blk, blkMax, oooSeen, app, stored, kfset, kindv>>
 
 \* model times are TimesRaw shifted down by TOff (cfg files cannot write negative numbers)
 Times == {x - TOff : x \in TimesRaw}
@@ -152,7 +156,7 @@ PreOf(s) == IF s = "s1" THEN PreSeq ELSE <<>>
 Init ==
   /\ ino = [s \in Series |-> PreOf(s)] /\ ooh = [s \in Series |-> <<>>] /\ oom = [s \in Series |-> {}]
   /\ oghost = [s \in Series |-> {}]
-  /\ hdel = [s \in Series |-> {}] /\ htomb = [s \in Series |-> {}] /\ wino = [s \in Series |-> PreOf(s)]
+  /\ hdel = [s \in Series |-> {}] /\ htomb = [s \in Series |-> {}] /\ wino = [s \in Series |-> PreOf(s)] /\ wgone = {}
   /\ hInit = (PreT # {})
   /\ hMin = IF PreT = {} THEN PosInf ELSE SetMin(PreT) - TOff
   /\ hMax = IF PreT = {} THEN NegInf ELSE SetMax(PreT) - TOff
@@ -230,7 +234,7 @@ AppendSample(a, s, t, v, ty) ==
      IN /\ app' = [app EXCEPT ![a] = ap1]
         /\ hInit' = (hInit \/ init)
         /\ hMax' = hMax1 /\ hMin' = hMin1
-        /\ UNCHANGED <<ino, ooh, oom, oghost, hdel, htomb, wino, minValid, blk, blkMax, oooSeen, stored, kfset>>
+        /\ UNCHANGED <<ino, ooh, oom, oghost, hdel, htomb, wino, wgone, minValid, blk, blkMax, oooSeen, stored, kfset>>
         /\ Step([a |-> "Append", app |-> a, s |-> s, t |-> t, v |-> v, ty |-> ty, ret |-> cls, pret |-> pcls,
                  kf |-> IF cls = pcls THEN "" ELSE IF KFInitOpts /\ ap0.api = "v1" /\ ap0.ini THEN "KF-C02-1" ELSE "KF-C02-2",
                  ooo |-> (~fast /\ res[1]), mv |-> ap0.mv, hm |-> ap0.hm])
@@ -306,7 +310,7 @@ CommitC(a, ap, st1, w1, diff, hid, orphan) ==
   IN /\ ks \subseteq AllowKF
      /\ ino' = st1.ino /\ ooh' = st1.ooh /\ oom' = st1.oom /\ stored' = st1.stored
      /\ wino' = w1
-     /\ hdel' = hdel /\ htomb' = htomb /\ oghost' = oghost
+     /\ hdel' = hdel /\ htomb' = htomb /\ oghost' = oghost /\ wgone' = wgone
      /\ hMin' = Min2(hMin, st1.imin) /\ hMax' = Max2(hMax, st1.imax)      \* updateMinMaxTime
      /\ app' = [app EXCEPT ![a] = NoApp]
      /\ UNCHANGED <<hInit, minValid, blk, blkMax, oooSeen>>
@@ -367,7 +371,7 @@ Delete(S, lo, hi) ==
   /\ kfset' = kfset \cup DeleteKF(S, lo, hi)
   /\ LET keep(X) == {x \in X : ~InRange(x, lo, hi)} IN
      /\ hdel' = [s \in Series |-> IF s \in S THEN hdel[s] \cup {x.t : x \in {y \in Range(ino[s]) : InRange(y, lo, hi)}} ELSE hdel[s]]
-     /\ UNCHANGED <<ino, wino, oghost>>
+     /\ UNCHANGED <<ino, wino, wgone, oghost>>
      /\ htomb' = [s \in Series |->
           IF s \in S /\ hInit /\ lo <= hMax /\ hi >= hMin /\ ino[s] # <<>>
           THEN LET t0 == Max2(Max2(lo, hMin), ino[s][1].t)
@@ -431,7 +435,7 @@ DropRisk == \E s \in Series : \E x \in Range(wino[s]) :
 DropKF == IF DropRisk THEN {"KF-C20-4"} ELSE {}
 
 CompactB(st1, doOOO) ==
-  /\ ino' = st1.ino /\ hdel' = st1.hdel /\ UNCHANGED <<wino, htomb>> /\ hMin' = st1.hMin /\ hMax' = st1.hMax
+  /\ ino' = st1.ino /\ hdel' = st1.hdel /\ UNCHANGED <<wino, wgone, htomb>> /\ hMin' = st1.hMin /\ hMax' = st1.hMax
   /\ minValid' = st1.minValid /\ blkMax' = st1.blkMax
   /\ blk' = IF doOOO THEN [s \in Series |-> st1.blk[s] \cup OOOAll(s)] ELSE st1.blk
   /\ ooh' = IF doOOO THEN [s \in Series |-> <<>>] ELSE ooh
@@ -463,8 +467,28 @@ CompactOOO ==
               THEN AfterGC([ino |-> ino, hMin |-> hMin, hMax |-> hMax, minValid |-> minValid])
               ELSE [hMin |-> hMin, minValid |-> minValid]
      IN hMin' = g.hMin /\ minValid' = g.minValid
-  /\ UNCHANGED <<ino, hdel, htomb, wino, hInit, hMax, blkMax, oooSeen, app, stored, kfset>>
+  /\ UNCHANGED <<ino, hdel, htomb, wino, wgone, hInit, hMax, blkMax, oooSeen, app, stored, kfset>>
   /\ Step([a |-> "CompactOOO", exp |-> ExpAll(stored)])
+
+(* DB.CompactStaleHead: series whose newest in-order sample is a staleness marker and that carry no out-of-order
+   data are written to blocks flagged "stale series" (one per chunk range, not counted for minValidTime) and
+   evicted from the head with a full-range tombstone record, so a WAL replay does not bring them back.
+   Contents are unchanged.  (compactHeadViewLocked, truncateStaleSeries) *)
+StaleSet == {s \in Series : ino[s] # <<>> /\ Last(ino[s]).v = 0 /\ OOOAll(s) = {}}
+
+CompactStale ==
+  /\ "CompactStale" \in Acts
+  /\ NoOpenApp
+  /\ hInit
+  /\ blk' = [s \in Series |-> IF s \in StaleSet
+                                THEN blk[s] \cup {x \in Range(ino[s]) : x.t >= hMin /\ x.t \notin hdel[s]} ELSE blk[s]]
+  /\ ino' = [s \in Series |-> IF s \in StaleSet THEN <<>> ELSE ino[s]]
+  /\ wino' = [s \in Series |-> IF s \in StaleSet THEN <<>> ELSE wino[s]]
+  /\ wgone' = wgone \cup UNION {{x.t : x \in Range(wino[s])} : s \in StaleSet}
+  /\ hdel' = [s \in Series |-> IF s \in StaleSet THEN {} ELSE hdel[s]]
+  /\ htomb' = [s \in Series |-> IF s \in StaleSet THEN {} ELSE htomb[s]]
+  /\ UNCHANGED <<ooh, oom, oghost, hInit, hMin, hMax, minValid, blkMax, oooSeen, app, stored, kfset>>
+  /\ Step([a |-> "CompactStale", n |-> Cardinality(StaleSet), exp |-> ExpAll(stored)])
 
 CleanTombstones ==
   /\ "CleanTombstones" \in Acts
@@ -485,13 +509,13 @@ Mmap ==
 ReopenWith(blk1, mx1, st1, rec) ==
   LET mv == mx1
       ino1 == [s \in Series |-> SelectSeq(wino[s], LAMBDA x : x.t >= mv)]
-      its == UNION {{x.t : x \in Range(ino1[s])} : s \in Series}
+      its == UNION {{x.t : x \in Range(ino1[s])} : s \in Series} \cup {t \in wgone : t >= mv}
       \* in-order head samples below the new horizon that no block holds are dropped by the replay (this only happens
       \* when a block was imported over the head's range; DB.Compact never leaves such samples)
       lost(s) == {x \in Range(ino[s]) : x.t < mv /\ x.t >= hMin /\ x.t \notin hdel[s] /\ x \notin blk1[s]
                                          /\ x \notin Range(ooh[s]) \cup oom[s] \cup oghost[s]}
       st2 == [s \in Series |-> st1[s] \ lost(s)]
-  IN /\ ino' = ino1 /\ UNCHANGED wino   \* the WAL keeps older records until a checkpoint drops them
+  IN /\ ino' = ino1 /\ UNCHANGED <<wino, wgone>>   \* the WAL keeps older records until a checkpoint drops them
      /\ htomb' = htomb
      /\ hdel' = hdel   \* tombstone records are replayed from the WAL like the samples they cover
      /\ minValid' = mv
@@ -532,6 +556,7 @@ KindEnabled(k) ==
     [] k = "Compact" -> NoOpenApp /\ hInit
     [] k = "CompactOOO" -> NoOpenApp /\ oooSeen
     [] k \in {"Reopen", "CleanTombstones", "Import"} -> NoOpenApp
+    [] k = "CompactStale" -> NoOpenApp /\ hInit
     [] OTHER -> TRUE
 
 Do(k) ==
@@ -545,6 +570,7 @@ Do(k) ==
   \/ k = "CleanTombstones" /\ CleanTombstones
   \/ k = "Mmap" /\ Mmap
   \/ k = "Reopen" /\ Reopen
+  \/ k = "CompactStale" /\ CompactStale
   \/ k = "Import" /\ \E lo \in Times, hi \in Times : Import(lo, hi)
 
 Next ==
@@ -595,6 +621,7 @@ Class == LET r == LastRec IN
                                         \* number of head chunks (one per chunk range) of the fullest series before / after
                                         MaxChunks(ino), MaxChunks(ino')>>
          ELSE IF r.a = "Delete" THEN <<r.a, r.kf, stored' # stored, hdel' # hdel, ooh' # ooh \/ oom' # oom, blk' # blk>>
+         ELSE IF r.a = "CompactStale" THEN <<r.a, r.n, blkMax = NegInf, hMin < 0, \E s \in StaleSet : hdel[s] # {}>>
          ELSE IF r.a = "Import" THEN <<r.a, stored' = [stored EXCEPT !["s1"] = @ \cup {[t |-> r.lo, v |-> 2, ty |-> "f"], [t |-> r.hi, v |-> 2, ty |-> "f"]}],
                                       r.hi + 1 > blkMax, blkMax = NegInf, ino' # ino>>
          ELSE IF r.a = "Reopen" THEN <<r.a, kfset, ino' # ino, wino # ino, blkMax = NegInf, hInit>>
